@@ -1,17 +1,45 @@
-/* LD_PRELOAD shim: freezes CLOCK_REALTIME at VERIF_FAKE_EPOCH (seconds; nanoseconds from VERIF_FAKE_EPOCH_NS) for the real CLI binary. */
+/* LD_PRELOAD shim for the real CLI binary: CLOCK_REALTIME shows VERIF_FAKE_EPOCH (seconds; nanoseconds from
+   VERIF_FAKE_EPOCH_NS). With VERIF_FAKE_CLOCK_FILE the current instant is read from that file on every call
+   (two little-endian int64: seconds, nanoseconds; mapped once), so the harness can move the clock while the
+   program is blocked reading its input. */
 #define _GNU_SOURCE
+#include <fcntl.h>
+#include <stdint.h>
 #include <stdlib.h>
+#include <sys/mman.h>
+#include <sys/syscall.h>
 #include <time.h>
 #include <unistd.h>
-#include <sys/syscall.h>
+
+static volatile int64_t *shared = 0;
+static int tried = 0;
 
 int clock_gettime(clockid_t clk, struct timespec *ts) {
-    const char *e = getenv("VERIF_FAKE_EPOCH");
-    if (clk == CLOCK_REALTIME && e) {
-        ts->tv_sec = (time_t)atoll(e);
-        const char *n = getenv("VERIF_FAKE_EPOCH_NS");
-        ts->tv_nsec = n ? atol(n) : 0;
-        return 0;
+    if (clk == CLOCK_REALTIME) {
+        if (!tried) {
+            tried = 1;
+            const char *f = getenv("VERIF_FAKE_CLOCK_FILE");
+            if (f) {
+                int fd = (int)syscall(SYS_open, f, O_RDONLY);
+                if (fd >= 0) {
+                    void *p = mmap(0, 16, PROT_READ, MAP_SHARED, fd, 0);
+                    if (p != MAP_FAILED) shared = (volatile int64_t *)p;
+                    syscall(SYS_close, fd);
+                }
+            }
+        }
+        if (shared) {
+            ts->tv_sec = (time_t)shared[0];
+            ts->tv_nsec = (long)shared[1];
+            return 0;
+        }
+        const char *e = getenv("VERIF_FAKE_EPOCH");
+        if (e) {
+            ts->tv_sec = (time_t)atoll(e);
+            const char *n = getenv("VERIF_FAKE_EPOCH_NS");
+            ts->tv_nsec = n ? atol(n) : 0;
+            return 0;
+        }
     }
     return (int)syscall(SYS_clock_gettime, clk, ts);
 }
